@@ -46,7 +46,7 @@ def clean(wt):
 
 def confirm(spec):
     pid, m = spec.split('/')
-    wt = '/tmp/seedwt/' + pid
+    wt = '/tmp/seedwt/' + dict(x.split('=') for x in os.environ.get('SEEDWT_MAP', '').split(',') if x).get(pid, pid)
     diff = os.path.join(SRC, pid, m + '.diff')
     res = {'mutant': spec, 'repo_head': REPO_HEAD}
     clean(wt)
